@@ -1,4 +1,32 @@
 mod checks;
+
+/// Freed blocks of up to 4 KiB (participant records, bag-queue nodes, bag buffers) are poisoned and never handed out again while a
+/// case asks for it: a use-after-free inside the collector's own data structures then reads a
+/// pattern that makes the process die instead of happening to read the old contents.
+pub static QUARANTINE: std::sync::atomic::AtomicBool = std::sync::atomic::AtomicBool::new(false);
+pub static POISONED_RECORDS: std::sync::atomic::AtomicU64 = std::sync::atomic::AtomicU64::new(0);
+struct PoisonAlloc;
+unsafe impl std::alloc::GlobalAlloc for PoisonAlloc {
+    unsafe fn alloc(&self, l: std::alloc::Layout) -> *mut u8 {
+        std::alloc::System.alloc(l)
+    }
+    unsafe fn dealloc(&self, p: *mut u8, l: std::alloc::Layout) {
+        if (l.align() >= 128 || (l.size() >= 32 && l.size() <= 4096)) && QUARANTINE.load(std::sync::atomic::Ordering::Relaxed) {
+            if l.align() >= 128 {
+                POISONED_RECORDS.fetch_add(1, std::sync::atomic::Ordering::Relaxed);
+            }
+            std::ptr::write_bytes(p, 0xDE, l.size());
+            return;
+        }
+        std::alloc::System.dealloc(p, l)
+    }
+    unsafe fn realloc(&self, p: *mut u8, l: std::alloc::Layout, n: usize) -> *mut u8 {
+        std::alloc::System.realloc(p, l, n)
+    }
+}
+#[global_allocator]
+static ALLOC: PoisonAlloc = PoisonAlloc;
+
 mod micro;
 mod queuelist;
 mod tls;
